@@ -19,7 +19,9 @@ RULE = ("part 'gfa1': generated GFA1 graphs (segments with LN and/or sequence, l
         "alignment direction; paths visit the same oriented segments through the same edges; tags carried; "
         "(3) there-and-back equals the source modulo ID/LN/VN; (4) no-counterpart records are absent or the call "
         "raises a gfapy.Error. Half of the documents of both parts have their lines shuffled (paths before "
-        "links before segments: forward references). Part 'gfa1-only-ops': such GFA1 graphs with = X N S H in "
+        "links before segments: forward references). In the gfa2 part 60% of the cases also convert once, replace a "
+        "named dovetail edge by one with another alignment and require the live conversion to equal the conversion of a "
+        "fresh parse of the current text; header tags other than VN are carried both ways. Part 'gfa1-only-ops': such GFA1 graphs with = X N S H in "
         "the overlap of one or all edges at vlevel 0..3: whole-graph and per-line conversion raise a "
         "gfapy.Error or write valid GFA2 without those operations. non-trivial = >= 1 edge with an I or D in "
         "its CIGAR and >= 2 distinct orientation pairs (gfa1-only-ops: >= 1 affected edge); distinct by hash")
@@ -136,8 +138,14 @@ def build_conv_gfa1(r):
     segs = names[:nseg]
     lines = []
     slen = {}
-    if gen.chance(r, 0.4):
-        lines.append(["H", [], [["VN", "Z", "1.0"]]])
+    if gen.chance(r, 0.5):
+        htags = [["VN", "Z", "1.0"]] if gen.chance(r, 0.7) else []
+        for n_ in ("hx", "hz"):
+            if gen.chance(r, 0.4):
+                t_ = gen.choice(r, "iZf")
+                htags.append([n_, t_, gen.gen_tag_value(r, t_, True)])
+        if htags:
+            lines.append(["H", [], htags])
     for s in segs:
         n = r.randint(4, 14)
         slen[s] = n
@@ -263,6 +271,11 @@ def check_gfa1_to_gfa2(doc):
 
 def compare_gfa2(src, slen, recs, text, how):
     ctx = "\n-- source --\n%s\n-- %s --\n%s" % (src.text(), how, text)
+    # header tags other than the version are carried
+    want_h = Counter(t for r in src.recs if r.rt == "H" for t in strip_tags(r.tags, {"VN"}))
+    got_h = Counter(t for r in recs if r.rt == "H" for t in strip_tags(r.tags, {"VN"}))
+    if want_h != got_h:
+        raise Violation("header-tags", "header tags differ: %s%s" % (G.counter_diff(want_h, got_h), ctx), how)
     # segments
     want_s = Counter()
     for r in src.recs:
@@ -353,6 +366,9 @@ def canon_gfa1_for_roundtrip(recs):
             out[("P", r.pos[0], tuple(segs), canon_steps(segs, steps), strip_tags(r.tags, set()))] += 1
         elif r.rt == "#":
             out[("#", r.pos[0])] += 1
+        elif r.rt == "H":
+            for t in strip_tags(r.tags, {"VN"}):
+                out[("H", t)] += 1
     return out
 
 
@@ -393,7 +409,9 @@ def to_gfa2_doc(r, doc):
     for l in doc["lines"]:
         rec = G.Rec.from_plain(l, "gfa1")
         if rec.rt == "H":
-            lines.append(["H", [], [["VN", "Z", "2.0"]]])
+            lines.append(["H", [], [["VN", "Z", "2.0"]] + [list(t) for t in rec.tags if t[0] != "VN"]])
+            for t in strip_tags(rec.tags, {"VN"}):
+                expect.append(("H", t))
         elif rec.rt == "S":
             lines.append(["S", [rec.pos[0], str(slen[rec.pos[0]]), rec.pos[1]], [list(t) for t in rec.tags if t[0] != "LN"]])
             expect.append(("S", rec.pos[0], rec.pos[1], strip_tags(rec.tags, {"LN"})))
@@ -483,6 +501,7 @@ def prop_gfa2(case):
         if got != want:
             raise Violation("gfa2-to-gfa1", "%s result differs from the model: %s\n-- source --\n%s\n-- result --\n%s" % (
                 how, G.counter_diff(want, got), "\n".join(lines), text))
+    _convert_after_edit(case, lines)
     # per-line conversion of records without counterpart must raise a gfapy.Error
     g = gfapy.Gfa(lines + ([G.Rec.from_plain(internal, "gfa2").text()] if internal else []), version="gfa2", vlevel=1)
     for l in g.lines:
@@ -506,6 +525,39 @@ def prop_gfa2(case):
         except GfapyError:
             pass
     return {"nt": case.get("nt", False), "extras": any(l[0] in "GFUX" for l in doc2["lines"]), "internal": bool(internal)}
+
+
+def _convert_after_edit(case, lines):
+    """A Gfa that has been converted once and is then edited (an edge taken out and put back
+    with another alignment) converts like a Gfa parsed afresh from its current text."""
+    if not case.get("edit"):
+        return
+    try:
+        g = gfapy.Gfa(lines, version="gfa2", vlevel=1)
+        g.to_gfa1_s()
+        cands = [e for e in g.edges if not gfapy.is_placeholder(e.name) and e.is_dovetail()]
+        if not cands:
+            return
+        e = cands[case["edit"] % len(cands)]
+        f = str(e).split("\t")
+        f[8] = "3M1D2M" if f[8] != "3M1D2M" else "*"
+        g.rm(e)
+        g.add_line("\t".join(f))
+        text = str(g)
+    except Exception as ex:
+        raise Violation("edit-raised", "replacing an edge of the converted Gfa raised %s: %s\n%s" % (type(ex).__name__, str(ex)[:300], "\n".join(lines)), type(ex).__name__)
+    outs = []
+    for what, mk in (("live", lambda: g), ("fresh", lambda: gfapy.Gfa(text, version="gfa2", vlevel=1))):
+        try:
+            t = mk().to_gfa1_s()
+            outs.append(canon_gfa1_for_roundtrip([G.split_line(x, "gfa1") for x in t.split("\n") if x and not x.startswith("#")]))
+        except GfapyError as ex:
+            outs.append("raised " + type(ex).__name__)
+        except Exception as ex:
+            raise Violation("conversion-foreign", "%s conversion after the edit raised %s: %s\n%s" % (what, type(ex).__name__, str(ex)[:300], text), type(ex).__name__)
+    if outs[0] != outs[1]:
+        d = G.counter_diff(outs[1], outs[0]) if not isinstance(outs[0], str) and not isinstance(outs[1], str) else "%r vs %r" % (outs[0], outs[1])
+        raise Violation("stale-after-edit", "the edited Gfa converts differently from a fresh parse of its text: %s\n-- text --\n%s" % (d, text))
 
 
 def _tuplify(x):
@@ -611,7 +663,8 @@ def st_gfa2(draw):
         if l[0] in "LC":
             ops |= set(op for _n, op in G.canon_cigar(l[1][-1]))
             ors.add((l[1][1], l[1][3]))
-    return {"doc": doc2, "expect": expect, "internal": internal, "nt": bool(ops & set("ID")) and len(ors) >= 2}
+    return {"doc": doc2, "expect": expect, "internal": internal, "nt": bool(ops & set("ID")) and len(ors) >= 2,
+            "edit": r.randint(1, 50) if gen.chance(r, 0.6) else None}
 
 
 def parts(tier):
